@@ -116,11 +116,31 @@ pub open spec fn tpe_sound(ps: PolicySet, q: PartialRequest, pes: PartialEntitie
 }
 impl PolicySet {
     #[verifier::external_body] pub fn tpe<'a>(&self, request: &'a PartialRequest, entities: &'a PartialEntities, schema: &'a Schema) -> (r: std::result::Result<TpeResponse<'a>, tpe_err::TpeError>)
-        ensures r is Ok ==> tpe_sound(*self, *request, *entities, r->Ok_0) { unimplemented!() }
+        ensures r is Ok ==> tpe_sound(*self, *request, *entities, r->Ok_0) && r->Ok_0.spec_decision() == spec_tpe_decision(*self, *request, *entities) { unimplemented!() }
 }
 /// candidate requests are completions of the query's partial request (the candidate id fills the unknown; assumed)
 pub broadcast axiom fn axiom_resource_request_consistent(q: ResourceQueryRequest, id: EntityId) ensures req_consistent(q.0, #[trigger] q.spec_request(id));
 pub broadcast axiom fn axiom_principal_request_consistent(q: PrincipalQueryRequest, id: EntityId) ensures req_consistent(q.0, #[trigger] q.spec_request(id));
+// ---- action query ----
+#[verifier::external_body] pub struct ActionQueryInner { _p: u8 }
+/// api::ActionQueryRequest: principal, resource and context are opaque here; the schema field is kept
+pub struct ActionQueryRequest { pub inner: ActionQueryInner, pub schema: Schema }
+impl ActionQueryRequest {
+    /// the actions of the schema that apply to the types of the requested principal and resource
+    /// (`self.schema.0.actions_for_principal_and_resource(&self.principal.0.ty, &self.resource.0.ty)`)
+    pub uninterp spec fn spec_candidates(&self) -> Seq<ast::EntityUID>;
+    #[verifier::external_body] pub fn vx_candidate_actions<'a>(&'a self) -> (r: VxIter<&'a ast::EntityUID>)
+        ensures r.items().len() == self.spec_candidates().len(), forall|i: int| #![trigger r.items()[i]] 0 <= i < r.items().len() ==> *r.items()[i] == self.spec_candidates()[i] { unimplemented!() }
+    /// the partial request for one action; fails when the partial context does not fit the action
+    pub uninterp spec fn spec_partial_request(&self, action: ast::EntityUID) -> Option<PartialRequest>;
+    #[verifier::external_body] pub fn partial_request(&self, action: EntityUid) -> (r: std::result::Result<PartialRequest, RequestValidationError>)
+        ensures r is Ok <==> self.spec_partial_request(action.spec_core()) is Some, r is Ok ==> r->Ok_0 == self.spec_partial_request(action.spec_core())->Some_0 { unimplemented!() }
+}
+/// `action.clone().into()` and `RefCast::ref_cast(action)`: the api view of a core uid (newtype casts)
+#[verifier::external_body] pub fn vx_uid_from_core(a: &ast::EntityUID) -> (r: EntityUid) ensures r.spec_core() == *a { unimplemented!() }
+#[verifier::external_body] pub fn vx_ref_cast<'a>(a: &'a ast::EntityUID) -> (r: &'a EntityUid) ensures r.spec_core() == *a { unimplemented!() }
+/// the TPE decision as a function of its inputs
+pub uninterp spec fn spec_tpe_decision(ps: PolicySet, q: PartialRequest, pes: PartialEntities) -> Option<Decision>;
 // ---- iterator plumbing ----
 impl<T> VxIter<T> {
     /// `Iterator::filter`: exactly the items the predicate accepts (order is not part of the contract)
